@@ -895,14 +895,12 @@ bn_t bignum_sdiv(bn_t a, bn_t b, int size)
 
 	if (a_sign) {
 		/* neg a */
-		printf("a neg\n");
 		a = bignum_sub(bignum_from_int(0), a);
 		a = bignum_mask(a, size - 1);
 	}
 
 	if (b_sign) {
 		/* neg b */
-		printf("b neg\n");
 		b = bignum_sub(bignum_from_int(0), b);
 		b = bignum_mask(b, size - 1);
 	}
